@@ -107,9 +107,8 @@ def run_history(ctx, k, first, start_main, kind, files):
         else True
     env = common.PolicyEnv()
     try:
-        os.makedirs(env.path('d1'))
-        os.makedirs(env.path('d2'))
-        env.tick(env.path('d1'))
+        env.mkdir('d1')
+        env.mkdir('d2')
         if start_main:
             env.write('policy.yaml', _content('policy.yaml', 1))
         env.write('d1/b.yaml', {'q': 'role:d1_b_1'})
@@ -169,9 +168,8 @@ def run_long(ctx, seed, index, steps, kind):
         else True
     env = common.PolicyEnv()
     try:
-        os.makedirs(env.path('d1'))
-        os.makedirs(env.path('d2'))
-        env.tick(env.path('d1'))
+        env.mkdir('d1')
+        env.mkdir('d2')
         if index % 2:
             env.write('policy.yaml', _content('policy.yaml', 1))
         enf = env.enforcer(defaults=_defaults(kind), policy_dirs=['d1', 'd2'],
